@@ -1,9 +1,226 @@
 package main
 
-import "verif/harness/core"
+import (
+	"bytes"
+	"context"
+	"encoding/json"
+	"fmt"
+	"os"
+	"os/exec"
+	"path/filepath"
+	"regexp"
+	"sort"
+	"strconv"
+	"time"
 
-// runFuzz runs one native fuzz target for fuzzTime (thorough tier). Implemented in fuzz_native.go
-// once fuzz targets exist; the stub reports nothing.
-func runFuzz(id, target, fuzzTime, rundir string) (v []core.Failure, inconclusive []string, note string) {
-	return nil, nil, "not run"
+	"verif/harness/core"
+)
+
+// Native, coverage-guided fuzzing (thorough tiers). The fuzz targets of harness/props/fuzz_test.go
+// apply the same oracles as the rapid checks; a worker that sees an oracle failure writes the case
+// as a candidate. Nothing a fuzz worker says is believed directly: every candidate (smallest per
+// signature) and every input that killed a worker is replayed by TestReplay in a fresh, ordinary
+// process, and only what fails there is a violation. Go's fuzzer cannot be seeded and stops at the
+// first failure, so a campaign is restarted (same corpus cache) until its time budget is used.
+
+var reFuzzExecs = regexp.MustCompile(`execs: (\d+)`)
+
+type fuzzStats struct {
+	Execs      int
+	Rounds     int
+	Candidates int
+	Confirmed  int
+	res        core.ShardResult
+	nt         map[uint64]struct{}
+}
+
+func buildFuzzTest(dir string) (string, error) {
+	out := filepath.Join(dir, "props.fuzz.test")
+	if _, err := os.Stat(out); err == nil {
+		return out, nil
+	}
+	cmd := exec.Command("go", "test", "-c", "-tags", "verif", "-fuzz", "Fuzz", "-o", out, "./props")
+	cmd.Dir = filepath.Join(root, "harness")
+	cmd.Env = env()
+	if b, err := cmd.CombinedOutput(); err != nil {
+		return "", fmt.Errorf("%v\n%s", err, b)
+	}
+	return out, nil
+}
+
+// runFuzz runs one target for about budget; returns confirmed failures.
+func runFuzz(id, target string, budget time.Duration, cfg propCfg, bin, rundir string, seed int64, isKnown func(string) bool) (fails []core.Failure, known map[string]int, inconclusive []string, st *fuzzStats) {
+	st = &fuzzStats{nt: map[uint64]struct{}{}}
+	st.res.Counters = map[string]int{}
+	known = map[string]int{}
+	fbin, err := buildFuzzTest(rundir)
+	if err != nil {
+		return nil, known, []string{"fuzz build: " + err.Error()}, st
+	}
+	base := filepath.Join(rundir, "fuzz-"+target)
+	cwd := filepath.Join(base, "cwd")
+	cache := filepath.Join(base, "cache")
+	os.MkdirAll(cwd, 0o755)
+	os.MkdirAll(cache, 0o755)
+	deadline := time.Now().Add(budget)
+	confirmedSigs := map[string]bool{}
+	for round := 0; time.Until(deadline) > 20*time.Second && round < 12; round++ {
+		st.Rounds++
+		fdir := filepath.Join(base, fmt.Sprintf("round-%d", round))
+		os.MkdirAll(fdir, 0o755)
+		left := time.Until(deadline).Round(time.Second)
+		ctx, cancel := context.WithTimeout(context.Background(), left+3*time.Minute)
+		cmd := exec.CommandContext(ctx, fbin,
+			"-test.run", "^$", "-test.fuzz", "^"+target+"$", "-test.fuzztime", left.String(),
+			"-test.fuzzminimizetime", "20s",
+			"-test.fuzzcachedir", cache, "-test.parallel", "16", "-test.timeout", "0")
+		cmd.Dir = cwd
+		cmd.Env = append(env(),
+			"VERIF_PROP="+id, "VERIF_TIER=thorough", "VERIF_FUZZ_DIR="+fdir, "VERIF_OUT="+fdir,
+			"VERIF_WORK="+filepath.Join(rundir, "work"), "VERIF_ROOT="+root, "VERIF_SEED="+strconv.FormatInt(seed, 10))
+		var buf bytes.Buffer
+		cmd.Stdout = &buf
+		cmd.Stderr = &buf
+		runErr := cmd.Run()
+		cancel()
+		out := buf.String()
+		if ms := reFuzzExecs.FindAllStringSubmatch(out, -1); len(ms) > 0 {
+			n, _ := strconv.Atoi(ms[len(ms)-1][1])
+			st.Execs += n
+		}
+		// worker statistics
+		stats, _ := filepath.Glob(filepath.Join(fdir, "stats-*.json"))
+		for _, f := range stats {
+			b, err := os.ReadFile(f)
+			if err != nil {
+				continue
+			}
+			var r core.ShardResult
+			if json.Unmarshal(b, &r) != nil {
+				continue
+			}
+			st.res.Evaluations += r.Evaluations
+			st.res.Rejected += r.Rejected
+			for _, h := range r.Nontrivial {
+				st.nt[h] = struct{}{}
+			}
+			for k, v := range r.Counters {
+				st.res.Counters[k] += v
+			}
+			for s, n := range r.KnownHits {
+				known[s] += n
+			}
+			if len(st.res.Samples) < 6 {
+				for _, s := range r.Samples {
+					if len(st.res.Samples) < 6 {
+						st.res.Samples = append(st.res.Samples, s)
+					}
+				}
+			}
+		}
+		if runErr == nil {
+			break // budget used without a failure
+		}
+		// candidates: the smallest case per signature
+		type cand struct {
+			path string
+			size int
+		}
+		best := map[string]cand{}
+		cands, _ := filepath.Glob(filepath.Join(fdir, "candidates", "*.json"))
+		st.Candidates += len(cands)
+		for _, f := range cands {
+			b, err := os.ReadFile(f)
+			if err != nil {
+				continue
+			}
+			var rf struct {
+				Signature string `json:"signature"`
+			}
+			if json.Unmarshal(b, &rf) != nil {
+				continue
+			}
+			if c, ok := best[rf.Signature]; !ok || len(b) < c.size {
+				best[rf.Signature] = cand{f, len(b)}
+			}
+		}
+		var sigs []string
+		for s := range best {
+			sigs = append(sigs, s)
+		}
+		sort.Strings(sigs)
+		newConfirmed := false
+		confirm := func(path string, k int) {
+			co := runShard(context.Background(), bin, id, "thorough", cfg, tierCfg{Checks: 1, Limit: 6 * time.Minute}, seed, 900+k, rundir,
+				[]string{"VERIF_REPLAY=" + path, "VERIF_HANG_S=150"}, "TestReplay")
+			if co.res != nil && len(co.res.Failures) > 0 {
+				for _, f := range co.res.Failures {
+					if isKnown(f.Signature) {
+						known[f.Signature]++
+						continue
+					}
+					if !confirmedSigs[f.Signature] {
+						confirmedSigs[f.Signature] = true
+						newConfirmed = true
+						st.Confirmed++
+						f.Message = "found by native fuzzing (" + target + "), confirmed by a plain replay in a fresh process: " + f.Message
+						fails = append(fails, f)
+					}
+				}
+				return
+			}
+			if co.exit != 0 {
+				b, _ := os.ReadFile(path)
+				var rf struct {
+					Case json.RawMessage `json:"case"`
+				}
+				json.Unmarshal(b, &rf)
+				sig, what := deathSignature(id, co.stderr)
+				if reRace.MatchString(co.stderr) {
+					sig, what = raceSignature(id, co.stderr), "race detector report"
+				}
+				if isKnown(sig) {
+					known[sig]++
+				} else if !confirmedSigs[sig] {
+					confirmedSigs[sig] = true
+					newConfirmed = true
+					st.Confirmed++
+					fails = append(fails, core.Failure{Signature: sig, Message: "found by native fuzzing (" + target + "), confirmed alone in a fresh process: " + what + "\n" + tail(co.stderr, 4000), Case: rf.Case})
+				}
+			}
+		}
+		for k, s := range sigs {
+			if confirmedSigs[s] {
+				continue
+			}
+			confirm(best[s].path, k)
+		}
+		if len(sigs) == 0 {
+			// a worker died (hang, stack overflow, fatal error): its last case is in current-<pid>.json
+			curs, _ := filepath.Glob(filepath.Join(fdir, "current-*.json"))
+			for k, f := range curs {
+				b, err := os.ReadFile(f)
+				if err != nil {
+					continue
+				}
+				tmp := filepath.Join(fdir, fmt.Sprintf("confirm-%d.json", k))
+				wb, _ := json.Marshal(map[string]any{"property": id, "signature": "confirm", "case": json.RawMessage(b)})
+				os.WriteFile(tmp, wb, 0o644)
+				confirm(tmp, 50+k)
+			}
+			if !newConfirmed {
+				inconclusive = append(inconclusive, fmt.Sprintf("native fuzzing (%s) stopped without a reproducible case:\n%s", target, tail(out, 2500)))
+				break
+			}
+		}
+		if !newConfirmed {
+			// the engine failed on something that does not reproduce in a fresh process (a flaky
+			// worker-side artefact); do not loop on it
+			inconclusive = append(inconclusive, fmt.Sprintf("native fuzzing (%s): %d candidate(s) did not reproduce in a fresh process:\n%s", target, len(sigs), tail(out, 2500)))
+			break
+		}
+		// a confirmed failure ends the campaign for this target (the engine would find it again)
+		break
+	}
+	return fails, known, inconclusive, st
 }
